@@ -368,7 +368,10 @@ def wf_headers(rng, full):
         for prio in range(4):
             for di, d0 in enumerate(dadr_shapes(rng)):
                 for si in range(4):
-                    for t in MSGKINDS:
+                    for ti, t in enumerate(MSGKINDS):
+                        # quick tier: the 255-octet MAC shapes (1 kB of literal each) only on a quarter of the grid
+                        if not full and (di == 3 or si == 3) and (er * 4 + prio + di + si + ti) % 4 != 0:
+                            continue
                         hops = HOPS if (full and d0 is not None) else [HOPS[k % 4]]
                         for hop in hops:
                             k += 1
@@ -619,10 +622,10 @@ def cases(rng, tier):
     if big:
         for a in range(256):
             for b in range(256):
-                if a != 1:
+                if a != 1 and b % 16 == a % 16:      # the version test does not look at the second octet
                     out.append(case_dec(bytes([a, b]), 'dec-exh'))
                 out.append(case_dec(bytes([1, a, b]), 'dec-exh3'))
-        for _ in range(20000):
+        for _ in range(5000):
             out.append(case_dec(rmac(rng, 3), 'dec-len3'))
     else:
         for a in range(256):
